@@ -1627,7 +1627,10 @@ func c19GenRate(c *Ctx) (cases []c19Case) {
 }
 
 var (
-	c19HdrKeys   = []string{"X-Id", "x-id", "X-ID", "x-Id", "X-iD", "Authorization", "authorization", "AUTHORIZATION", "Accept", "accept", "Content-Type", "content-type", "Content-type", "X_Under_Score", "x-trace.id", "X-Custom-Header-With-A-Long-Name", "a", "Z", "If-None-Match", "ETag", "Etag", "etag", "SOAPAction", "soapaction", "Cookie", "cookie", "x!tok~", "X-1", "x-1"}
+	c19HdrKeys   = []string{"X-Id", "x-id", "X-ID", "x-Id", "X-iD", "Authorization", "authorization", "AUTHORIZATION", "Accept", "accept", "Content-Type", "content-type", "Content-type", "X_Under_Score", "x-trace.id", "X-Custom-Header-With-A-Long-Name", "a", "Z", "If-None-Match", "ETag", "Etag", "etag", "SOAPAction", "soapaction", "Cookie", "cookie", "x!tok~", "X-1", "x-1",
+		// names net/http gives a meaning of its own: the flag still only records what was written
+		"Host", "host", "HOST", "hOsT", "Content-Length", "content-length", "Transfer-Encoding", "transfer-encoding", "User-Agent", "user-agent", "USER-AGENT",
+		"Connection", "connection", "Te", "TE", "Expect", "expect", "Accept-Encoding", "accept-encoding", "Date", "date", "Range", "range", "Trailer", "Upgrade", "upgrade"}
 	c19HdrVals   = []string{"1", "0", "a b", "http://h:80/p?q=1", "a:b:c", ":lead", "trail:", "::", "tok=abc; x=y", "ünï cödé", "with  two  spaces", "Bearer abc.def.ghi", "text/html; charset=utf-8", "\"quoted\"", "W/\"etag\"", "k: v", "x\ty", "*/*", "-", "8675309", "a,b,c", "日本"}
 	c19HdrSpaces = []string{"", "", " ", "  ", "\t", " \t ", "    "}
 	c19HdrBad    = []string{"", ":", "novalue", "K:", "K:  ", "K:\t", ":v", "  :v", " \t: \t", "  ", "K", ": ", " : ", "key only ", ":::"}
@@ -1643,7 +1646,8 @@ func c19GenHeader(c *Ctx) (cases []c19Case) {
 	cases = append(cases,
 		c19Set("header", "X-Id: 1"), c19Set("header", "x-id: 1", "X-Id: 2", "X-ID: 3"), c19Set("header", "Accept: a", "Accept: b", "Accept: a"),
 		c19Set("header", "  spaced \t:\t value with: colon  "), c19Set("header", "content-type:text/plain", "Content-Type: text/html"),
-		c19Set("header", "Authorization: Bearer t", "authorization: basic x", "Authorization:Bearer u"))
+		c19Set("header", "Authorization: Bearer t", "authorization: basic x", "Authorization:Bearer u"),
+		c19Set("header", "host: a.test", "Host: b.test", "HOST: c.test"), c19Set("header", "user-agent: x", "User-Agent: y"), c19Set("header", "content-length: 3"))
 	for _, b := range c19HdrBad {
 		cases = append(cases, c19Set("header", b), c19Set("header", "X-Ok: 1", b))
 	}
